@@ -3,7 +3,7 @@ PROPS = {
     "C20": {
         "coq_models": ["theories/C20/Model.vo"],
         "proof_dirs": ["C20", "Lib"],
-        "results": 1,
+        "results": ["K1"],
         "level_text": "Theorems over every state/history of an executable model of cache.Impl (Find serves only fresh or just-listed entries; clean entries are served without listing; dirty ones re-list; failed listing never serves; byte-level Save/Load round trip; Load never faults on any byte string), with the loadCachePkgs guard and hash sentinels regenerated from the source on every run, and the model run against the real cache.Impl on generated histories (stub go command, scripted fingerprints, real files, every prefix and count edit of saved files).",
         "level_note": "Trusted: Coq kernel + vm_compute; hand-written model tied to the code only by the K1 run; world model (stub go list, scripted hash, files) stands for the OS; sync.Map/atomics modelled sequentially - the concurrent-callers part of the property is exercised dynamically only (partial).",
         "technique": "Coq proof (invariants over all histories, byte-level codec round trip) + regenerated guard + model/implementation correspondence in vm_compute",
@@ -14,5 +14,28 @@ PROPS = {
             "concurrent lookups: only exercised dynamically (race detector run in the thorough tier), not proved",
             "files larger than 2^43 bytes are outside C20_load_never_faults",
         ],
+    },
+    "C19": {
+        "coq_models": ["theories/C19/Check.vo"],
+        "proof_dirs": ["C19"],
+        "results": ["K1", "K2", "K1", "HYP"],
+        "level_text": "Theorems: identical types hash equally (all types of the model syntax, any pointer hash, mutual induction); the model of types.Identical is an equivalence; for every Set/Delete/At/Len/Keys history the bucket/tombstone map agrees with an association list under identity (generic refinement proof, then instantiated with types as keys with no hypothesis left). All hasher constants are regenerated from typeutil/map.go on every run; the hash model, the identity model and the map model are run against the real Hasher, types.Identical and typeutil.Map on generated pools of colliding types.",
+        "level_note": "Trusted: Coq kernel + vm_compute; the transcription of hasher.hash/shallowHash and of types.Identical (validated by K1/K2 on the pools only); term sets enter the model already normalised by the code's own InterfaceTermSet/UnionTermSet (verif hook) and in a canonical order chosen by the encoder; aliases are unaliased by the encoder; the pointer hash of *TypeName is a parameter of the theorems.",
+        "technique": "Coq proof (mutual induction over type syntax, refinement to an association list over all histories) + regenerated constants + model/implementation correspondence in vm_compute",
+        "trusted_base": [
+            "normalised term sets are taken from the implementation (typeutil.VerifInterfaceTermSet/VerifUnionTermSet); normalisation itself is not modelled",
+            "encoder: types.Unalias, canonical ordering of union terms, object ids for *types.TypeName",
+        ],
+        "assumptions": ["builtin.go getBuiltinTI client of the map is not modelled"],
+    },
+    "C10": {
+        "coq_models": ["theories/C10/Check.vo"],
+        "proof_dirs": ["C10"],
+        "results": ["K1", "K2"],
+        "level_text": "Theorems: the transcribed isTerminating/isTerminatingList/isTerminatingSwitch decide exactly the Go specification's terminating-statement predicate, and hasBreak decides exactly 'break referring to the enclosing statement' (mutual structural induction: every statement, depth and label context); missing return is reported iff a normal function with results has a non-terminating body; label diagnostics iff defined twice / defined and never used, for every event history. The model is run against the real builder (Func.End, panic tracking, NewLabel/Goto/Break/Continue/checkLabels) on random bodies and against the real terminating analysis (verif hook) on generated and standard-library bodies; the specification side is compared with go/types.",
+        "level_note": "Trusted: Coq kernel + vm_compute; hand transcription of utilast_gengo.go termChecker and of the label bookkeeping; my reading of the Go spec's terminating-statement section as the inductive predicate Term (validated against go/types by K2 only); expression statements are abstracted to 'tracked builtin panic call or not' (tracking itself is exercised through the builder with a shadowed panic parameter).",
+        "technique": "Coq proof (reflection of an inductive spec predicate by mutual structural induction) + model/implementation/go-types correspondence in vm_compute",
+        "trusted_base": ["statement abstraction: declarations, assignments, sends, inc/dec, go, defer collapse to SOther; closures are opaque expression statements with their own function context"],
+        "assumptions": ["goto/break-label validity errors other than 'defined twice'/'never used' are outside the property"],
     },
 }
